@@ -131,6 +131,7 @@ func cmdCheck(args []string) {
 	for _, k := range known {
 		if k.Status == "open" {
 			knownOpen[k.ID] = true
+			replayKnownOpen = append(replayKnownOpen, k.ID)
 		}
 		knownWhat[k.ID] = k.What
 	}
@@ -582,12 +583,14 @@ func (ev *Evidence) write(path string) {
 
 // ---- native replay ----
 
+var replayKnownOpen []string
+
 func runReplay(lp *loaded, repo, verif, dir string, cases []*replayCase) error {
 	// group by package of the harness
 	byPkg := map[string][]*replayCase{}
 	for _, c := range cases {
 		fn := lp.harnesses[c.V.Harness]
-		rec := map[string]any{"harness": c.V.Harness, "vector": c.V.Vector, "kinds": c.V.Kinds, "tag": c.V.Tag, "kind": c.V.Kind, "params": c.Params}
+		rec := map[string]any{"harness": c.V.Harness, "vector": c.V.Vector, "kinds": c.V.Kinds, "tag": c.V.Tag, "kind": c.V.Kind, "params": c.Params, "known_open": replayKnownOpen}
 		data, _ := json.Marshal(rec)
 		if err := os.WriteFile(c.File, data, 0o644); err != nil {
 			return err
